@@ -987,6 +987,27 @@ def check_numeric_getters(ctx) -> None:
                     ctx.bad("C10.fields", f, enclosing_stmt(n), f"`{norm(par)}` tests the number for truth: an explicit 0 takes the other branch")
                 else:
                     ctx.ok("C10.fields", f, enclosing_stmt(n), f"{n.func.attr}() is used as read", nontrivial=False)
+    # optional numbers: libsbml answers an unset attribute with 0 - the getter has to stand under its own isSet test
+    optional = {"getCharge": "isSetCharge"}
+    for f in [fn] + list(fn.nested.values()):
+        for n in walk_local(f.node):
+            if isinstance(n, ast.Call) and isinstance(n.func, ast.Attribute) and n.func.attr in optional:
+                recv = norm(n.func.value)
+                want = f"{recv}.{optional[n.func.attr]}()"
+                tested = False
+                child = n
+                for a in ancestors(n):
+                    if a is f.node:
+                        break
+                    if isinstance(a, ast.If) and any(child is x or child in ast.walk(x) for x in a.body) and want in norm(a.test):
+                        tested = True
+                    if isinstance(a, ast.IfExp) and (child is a.body or child in ast.walk(a.body)) and want in norm(a.test):
+                        tested = True
+                    child = a
+                if tested:
+                    ctx.ok("C10.fields", f, enclosing_stmt(n), f"{n.func.attr}() is read only when {optional[n.func.attr]}() holds")
+                else:
+                    ctx.bad("C10.fields", f, enclosing_stmt(n), f"`{norm(n)}` is read without testing `{want}`: libsbml answers an attribute that is not set with 0, so a metabolite without a charge comes back as a neutral one")
     if n_sites < 4:
         raise AnalysisError("C10: numeric getters of the reader not found")
 
